@@ -34,6 +34,11 @@ class VExc(Exception):
         self.who = who
 
 
+EXC_CLASSES = {'VExc': VExc, 'TimeoutError': TimeoutError, 'KeyError': KeyError,
+               'ValueError': ValueError, 'OSError': OSError, 'RuntimeError': RuntimeError,
+               'LookupError': LookupError, 'AssertionError': AssertionError}
+
+
 class VResult:
     def __init__(self, who):
         self.who = who
@@ -50,7 +55,14 @@ class Recorder:
         self.sampling = sampling
         self.objs = {}
         self._tokens = {}
+        self._names = {}
         self._keep = []
+
+    def name(self, obj, token):
+        """give a stable token to an object made by the harness (an exception raised by a
+        job), whatever its class"""
+        self._keep.append(obj)
+        self._names[id(obj)] = token
 
     def tok(self, obj):
         if obj is None or obj is True or obj is False:
@@ -60,6 +72,8 @@ class Recorder:
         if isinstance(obj, VResult):
             return 'R:' + obj.who
         key = id(obj)
+        if key in self._names:
+            return self._names[key]
         if key not in self._tokens:
             self._keep.append(obj)
             self._tokens[key] = 'O%d:%s' % (len(self._tokens), type(obj).__name__)
@@ -134,7 +148,8 @@ class _JobBehaviour:
                 rec.ev('exit', who, how='cancelled')
             raise
         if sp['outcome'] == 'raise':
-            exc = VExc(who)
+            exc = EXC_CLASSES[sp.get('exc', 'VExc')](who)
+            rec.name(exc, 'X:' + who)
             rec.ev('exit', who, how='raise', obj=rec.tok(exc))
             raise exc
         res = VResult(who)
@@ -157,8 +172,12 @@ class _JobBehaviour:
 class VJob(_JobBehaviour, AbstractJob):
     def __init__(self, spec):
         self._v_init(spec)
-        AbstractJob.__init__(self, label=spec.get('label', spec['id']),
-                             critical=spec['critical'], forever=spec['forever'])
+        if spec.get('late_attrs'):
+            AbstractJob.__init__(self, label=spec.get('label', spec['id']))
+            _late_attrs(self, spec)
+        else:
+            AbstractJob.__init__(self, label=spec.get('label', spec['id']),
+                                 critical=spec['critical'], forever=spec['forever'])
 
     async def co_run(self):
         return await self._v_body()
@@ -174,9 +193,14 @@ class VCoJob(_JobBehaviour, Job):
         self._v_init(spec)
         self._v_corun = self._v_body()
         self._v_cosd = self._v_shutdown()
-        Job.__init__(self, self._v_corun, coshutdown=self._v_cosd,
-                     label=spec.get('label', spec['id']),
-                     critical=spec['critical'], forever=spec['forever'])
+        if spec.get('late_attrs'):
+            Job.__init__(self, self._v_corun, coshutdown=self._v_cosd,
+                         label=spec.get('label', spec['id']))
+            _late_attrs(self, spec)
+        else:
+            Job.__init__(self, self._v_corun, coshutdown=self._v_cosd,
+                         label=spec.get('label', spec['id']),
+                         critical=spec['critical'], forever=spec['forever'])
 
     async def co_shutdown(self):
         # a coroutine object can be awaited once only: a second co_shutdown() on the same
@@ -244,22 +268,45 @@ class _SchedBehaviour:
 
 
 def _sched_kwargs(spec):
+    if spec.get('late_attrs'):
+        return {}
     return dict(jobs_window=spec['window'], timeout=spec['timeout'],
                 shutdown_timeout=spec['sdt'], verbose=spec['verbose'])
+
+
+def _late_attrs(obj, spec):
+    """jobs_window, timeout, shutdown_timeout, verbose (and the flags of a job) are plain
+    attributes that may be assigned after construction (CHANGELOG 0.5: 'attributes of the
+    scheduler'); scenarios with late_attrs install them that way"""
+    if not spec.get('late_attrs'):
+        return
+    if spec['kind'] == 'sched':
+        obj.jobs_window = spec['window']
+        obj.timeout = spec['timeout']
+        obj.shutdown_timeout = spec['sdt']
+        obj.verbose = spec['verbose']
+    if hasattr(obj, 'critical'):
+        obj.critical = spec['critical']
+        obj.forever = spec['forever']
 
 
 class VScheduler(_SchedBehaviour, Scheduler):
     def __init__(self, spec, *jobs):
         self._v_init(spec)
-        Scheduler.__init__(self, *jobs, critical=spec['critical'],
-                           forever=spec['forever'], label=spec.get('label', spec['id']),
-                           **_sched_kwargs(spec))
+        if spec.get('late_attrs'):
+            Scheduler.__init__(self, *jobs, label=spec.get('label', spec['id']))
+        else:
+            Scheduler.__init__(self, *jobs, critical=spec['critical'],
+                               forever=spec['forever'],
+                               label=spec.get('label', spec['id']), **_sched_kwargs(spec))
+        _late_attrs(self, spec)
 
 
 class VPureScheduler(_SchedBehaviour, PureScheduler):
     def __init__(self, spec, *jobs):
         self._v_init(spec)
         PureScheduler.__init__(self, *jobs, **_sched_kwargs(spec))
+        _late_attrs(self, spec)
 
 
 def build(spec, registry, top=True):
@@ -375,8 +422,31 @@ def run_scenario(spec, sampling=False, run_on=True, explicit_shutdown=False,
             who = task.v_owner.v_id if task.v_owner is not None else None
             rec.ev('cancel-req', who, tkind=task.v_kind)
         loop.on_cancel_request = on_cancel
-        if sampling:
-            loop.quiescent_cb = rec.sample
+        inspect = spec.get('inspect')
+
+        def on_quiescent():
+            if inspect:
+                # a monitoring job could do this at any time: the read-only inspection
+                # methods must not disturb a run in progress
+                with contextlib.redirect_stdout(io.StringIO()):
+                    for obj in registry.values():
+                        if isinstance(obj, PureScheduler):
+                            for call in (obj.list, obj.check_cycles, obj.stats, obj.why,
+                                         lambda o=obj: repr(o), obj.dot_format, obj.debrief,
+                                         lambda o=obj: list(o.iterate_jobs()),
+                                         lambda o=obj: list(o.exit_jobs()),
+                                         lambda o=obj: list(o.entry_jobs()),
+                                         lambda o=obj: list(o.topological_order())):
+                                try:
+                                    call()
+                                except Exception:
+                                    pass
+                        else:
+                            repr(obj)
+            if sampling:
+                rec.sample()
+        if sampling or inspect:
+            loop.quiescent_cb = on_quiescent
 
         with contextlib.redirect_stdout(out):
             try:
